@@ -157,8 +157,12 @@ def md_value(kind, salt, idtext, cat, ctrl=False):
         if h % 5 == 0:
             # beyond 2**53: exact only if it is never routed through a double
             return 2 ** 53 + 1 + int(h % 1000) * 2 ** 8
+        if h % 4 == 1:
+            return (0, 1, 2, -1)[(h >> 4) % 4]    # equal to a float / a bool
         return int(h % 1000) - 200
     if kind == 'float':
+        if h % 4 == 1:
+            return (0.0, 1.0, 2.0, -1.0)[(h >> 4) % 4]   # integral floats
         return (h % 4096) / 64.0 - 8.0
     if kind == 'bool':
         return bool(h & 1)
